@@ -156,7 +156,27 @@ func c10Check(cs []tcue, f int64, spare int, styled bool) string {
 	return ""
 }
 
+// c10Banner is a short list with one cue that spans thousands of periods (a banner shown for an hour, cut every
+// other second): the number of pieces per cue is the quantity that matters, not the number of cues
+func c10Banner(r *fw.Rand) ([]tcue, int64) {
+	f := fw.Pick(r, []int64{1, 1000000, 40000000, 1000000000, 2000000000}) * int64(r.Range(1, 3))
+	k := fw.Pick(r, []int64{255, 256, 511, 512, 999, 1000, 1023, 1024, 1025, 2047, 2048, 4095, 4096, 9999, 10000, 16384, 32768, 65535, 65536}) + int64(r.Intn(4)) - 1
+	if r.P(1, 4) {
+		k = int64(r.Range(200, 70000))
+	}
+	s := r.I64n(3*f + 1)
+	cs := []tcue{{s, s + k*f + r.I64n(f+1), "banner"}}
+	for n := r.Intn(4); n > 0; n-- {
+		t := cs[len(cs)-1].S + r.I64n(5*f+1)
+		cs = append(cs, tcue{t, t + r.I64n(7*f+1), fw.Pick(r, []string{"a", "b"})})
+	}
+	return cs, f
+}
+
 func c10Random(r *fw.Rand) ([]tcue, int64) {
+	if r.P(1, 40) {
+		return c10Banner(r)
+	}
 	n := r.Range(5, 60)
 	unit := fw.Pick(r, []int64{1, 1000000, 1000000, 1000000000})
 	cs := make([]tcue, 0, n)
@@ -219,6 +239,32 @@ func c10CLI(c *fw.Ctx) fw.Outcome {
 		cs[i] = tcue{t * 1e6, (t + int64(r.Range(1, 7000))) * 1e6, fmt.Sprintf("text %s", fw.Pick(r, []string{"a", "b"}))}
 	}
 	f := int64(r.Range(1, 40)) * 100 * 1e6
+	switch r.Intn(4) {
+	case 0:
+		// a list of the exhaustive grid (seconds), f from 1 s to beyond every end
+		g := c10Lists("quick")
+		cs = append([]tcue(nil), g[r.Intn(len(g))]...)
+		for i := range cs {
+			cs[i].S, cs[i].E, cs[i].T = cs[i].S*1e9, cs[i].E*1e9, "text "+cs[i].T
+		}
+		f = int64(r.Range(1, 12)) * 1e9
+	case 1:
+		// the period lies between the end of the cue that starts last and the latest end, or beyond both
+		var last, latest int64
+		for _, x := range cs {
+			last = x.E
+			if x.E > latest {
+				latest = x.E
+			}
+		}
+		f = fw.Pick(r, []int64{last, last + 1e6, (last + latest) / 2 / 1e6 * 1e6, latest - 1e6, latest, latest + 1e6})
+		if f <= 0 {
+			f = 1e6
+		}
+	}
+	if len(cs) == 0 {
+		cs = []tcue{{0, 1e9, "text a"}}
+	}
 	in := filepath.Join(c.TmpDir(), "in.srt")
 	out := filepath.Join(c.TmpDir(), "out.srt")
 	os.WriteFile(in, []byte(simpleSRT(cs)), 0o644)
@@ -250,7 +296,7 @@ func c10CLI(c *fw.Ctx) fw.Outcome {
 
 func init() {
 	randomN := func(tier string) int64 { return tierN(tier, 50000, 2000000) }
-	cliN := func(tier string) int64 { return tierN(tier, 24, 200) }
+	cliN := func(tier string) int64 { return tierN(tier, 320, 3200) }
 	fw.Register(&fw.Property{
 		ID:    "C10",
 		Level: "exploration",
